@@ -72,7 +72,10 @@ func c11Template(t *rapid.T) []HStep {
 		return append(s, HStep{Kind: "req", Method: "TEARDOWN"})
 	default: // tunnels
 		ck := "cookie" + fmt.Sprint(rapid.IntRange(0, 2).Draw(t, "cookie"))
-		switch rapid.IntRange(0, 3).Draw(t, "tunnel") {
+		switch rapid.IntRange(0, 4).Draw(t, "tunnel") {
+		case 4: // a GET channel left alone until the server gives up on it (5 s), then a POST channel with the same cookie
+			return []HStep{{Kind: "tunnel-get", Cookie: ck}, {Kind: "sleep", Ms: 5600},
+				{Conn: 1, Kind: "tunnel-post", Cookie: ck, Raw: []byte("OPTIONS rtsp://x/stream RTSP/1.0\r\nCSeq: 1\r\n\r\n")}}
 		case 0:
 			return []HStep{{Kind: "tunnel-get", Cookie: ck}, {Conn: 1, Kind: "tunnel-post", Cookie: ck, Raw: []byte("OPTIONS rtsp://x/stream RTSP/1.0\r\nCSeq: 1\r\n\r\n")}}
 		case 1:
@@ -207,7 +210,7 @@ func TestC11(t *testing.T) {
 	rapid.Check(t, func(rt *rapid.T) {
 		c := genHostileConnCase(rt)
 		done := pbt.Inflight("C11", "conns", c)
-		st, err := runHostileConns(c)
+		st, err := pbt.Safe(runHostileConns, c)
 		done()
 		if st == nil {
 			st = &hcStats{}
